@@ -2,6 +2,7 @@ package main
 
 import (
 	"fmt"
+	"go/types"
 	"os"
 	"sort"
 	"strings"
@@ -55,11 +56,22 @@ func (x *Exec) buildCaller(h *Heap) AV {
 			hb.tri = 1
 		}
 		argsAV := AV{k: 'L', tri: 2, agg: &aggVal{elems: specs}, elemK: 'O'}
-		fields := make([]AV, 4)
+		nf := 4
+		if st, ok := x.c.A.FEntryT.Underlying().(*types.Struct); ok {
+			nf = st.NumFields()
+		}
+		fields := make([]AV, nf)
+		if st, ok := x.c.A.FEntryT.Underlying().(*types.Struct); ok {
+			for i := range fields {
+				fields[i] = x.zero(st.Field(i).Type())
+			}
+		}
 		fields[fieldIndex(x.c.A.FEntryT, "name")] = AV{k: 'S', s: e.Name, sk: true}
 		fields[fieldIndex(x.c.A.FEntryT, "arguments")] = argsAV
 		fields[fieldIndex(x.c.A.FEntryT, "handler")] = AV{k: 'U', fn: e.Handler, what: e.Handler.Name()}
-		fields[fieldIndex(x.c.A.FEntryT, "hasExpRef")] = hb
+		if hi := fieldIndexOpt(x.c.A.FEntryT, "hasExpRef"); hi >= 0 {
+			fields[hi] = hb
+		}
 		table[e.Key] = AV{k: 'G', what: "functionEntry", agg: &aggVal{fields: fields}}
 	}
 	tableAV := AV{k: 'G', what: "functionTable", agg: &aggVal{table: table}}
